@@ -18,6 +18,31 @@
 (*   <<"def", f, n, t, e1, e2>>   def f(p1..pn): if t: return e1 / return e2                    *)
 (*   <<"class", C, bases, cattrs, n, iattrs, meths>>                                            *)
 (*   <<"try", x, e1, e2>>   try: x = e1 except Exception: x = e2                                *)
+(*                                                                                            *)
+(* SECOND FAMILY (switches Mutation / Match, both FALSE unless the configuration overrides     *)
+(* them with `CONSTANTS Mutation <- On  Match <- On`; with both off every configuration        *)
+(* generates exactly the programs it generated before the family was added):                   *)
+(* places   pl ::= <<"name", x>> | <<"attr", <<"name", x>>, a>> | <<"sub", <<"name", x>>>>       *)
+(* expressions  <<"split", k>> k in empty one two ("".split() ...: a list of unknown length)     *)
+(*   <<"dict0">> ({})   <<"mx", e, m, args>> (e.m(args) as a value: pop copy get setdefault)     *)
+(*   <<"slice", e, k>> (e[1:] / e[:1])      literal kinds "zero" (0) and "empty" ("")            *)
+(* statements that MUTATE an object reachable from a name or a parameter                        *)
+(*   <<"setitem", pl, key, e>>  pl[key] = e      <<"delitem", pl, key>>  del pl[key]              *)
+(*   <<"setattr", pl, a, e>>    pl.a = e         <<"augadd", pl, e>>     pl += e                  *)
+(*   <<"mcall", pl, m, args>>   pl.m(args)  (append extend insert add update pop clear            *)
+(*                              setdefault remove)    <<"expr", e>>  an expression statement      *)
+(*   <<"mdef", f, n, star, body, t, e1, e2>>   def f(p1..pn[, *ps]): body (mutation statements  *)
+(*        over the parameters and the globals); if t: return e1 / return e2                      *)
+(*   actions TwinCall / Probe call one function several times, TwinCall with FRESH arguments     *)
+(*   that are the same term (two different objects that look the same before the call)           *)
+(* match statements                                                                             *)
+(*   <<"match", x, subj, cases>>   cases = << <<pat, guard, e>> .. >>: match subj: case pat      *)
+(*        [if guard]: x = e                                                                      *)
+(*   <<"matchdef", f, n, star, subj, cases, e>>  def f(..): match subj: case ..: return ei / return e *)
+(*   patterns <<"pval", lit>> <<"pwild">> <<"pcap", c>> <<"pseq", "l"|"t", ps>>                   *)
+(*     <<"pstar", pre, c|"_", post>> <<"pmap", <<<<keylit, p>>..>>, rest|"">>                      *)
+(*     <<"pcls", C, pos, <<<<attr, p>>..>>>> <<"por", p, q>> <<"pas", p, c>>; guard <<"noguard">>   *)
+(*     or an expression; capture names are derived from the position (unique per pattern)        *)
 EXTENDS Naturals, Sequences, FiniteSets, TLC, Json
 
 CONSTANTS MaxStmts,   \* statements per program
@@ -31,6 +56,12 @@ FnNames == {"f1", "f2", "f3"}
 ClsNames == {"K1", "K2", "K3"}
 Builtin1 == {"len", "str", "repr", "bool", "list", "tuple", "type", "abs", "sorted"}
 LitKinds == {"int", "str", "float", "bool", "none"}
+
+(* switches of the second family: definitions, so that configurations written before they existed *)
+(* keep working; a configuration turns them on with `CONSTANTS Mutation <- On  Match <- On`        *)
+Mutation == FALSE
+Match == FALSE
+On == TRUE
 
 Names(kind) == {s[1] : s \in {x \in scope : x[2] = kind}}
 Arity(f) == (CHOOSE s \in scope : s[1] = f)[3]
@@ -55,12 +86,19 @@ RandArgs(n, d, params) ==
   IF n = 0 THEN <<>> ELSE IF n = 1 THEN <<RandExpr(d, params)>>
   ELSE <<RandExpr(d, params), RandExpr(d, params)>>
 
-Fns == Names("fn") \cup Names("lam")
+Fns == Names("fn") \cup Names("lam") \cup Names("mfn")
 Kinds ==
   <<"atom", "atom", "list", "tuple", "dict", "set", "add", "cond", "or", "and",
     "not", "cmp", "isnone", "sub", "bcall", "attr", "lcomp">>
   \o (IF Fns # {} THEN <<"call", "call", "call">> ELSE <<>>)
   \o (IF Names("cls") # {} THEN <<"new", "new", "meth", "meth", "isinst">> ELSE <<>>)
+  \o (IF Mutation \/ Match THEN <<"split", "dict0", "mx", "slice">> ELSE <<>>)
+
+MxOf(e, d, params) ==
+  One({CASE m = "get" -> <<"mx", e, m, <<<<"lit", Pick({"int", "str"})>>>>>>
+         [] m = "setdefault" -> <<"mx", e, m, <<<<"lit", Pick({"int", "str"})>>, RandExpr(d, params)>>>>
+         [] OTHER -> <<"mx", e, m, <<>>>>
+       : m \in {Pick({"pop", "copy", "get", "setdefault"})}})
 
 ExprOfKind(k, d, params) ==
   CASE k = "atom" -> Atom(params)
@@ -83,6 +121,10 @@ ExprOfKind(k, d, params) ==
     [] k = "new" -> One({<<"call", c, RandArgs(Arity(c), d - 1, params)>> : c \in {Pick(Names("cls"))}})
     [] k = "meth" -> <<"meth", RandExpr(d - 1, params), Pick({"m", "n"})>>
     [] k = "isinst" -> <<"isinst", RandExpr(d - 1, params), Pick(Names("cls"))>>
+    [] k = "split" -> <<"split", Pick({"empty", "one", "two"})>>
+    [] k = "dict0" -> <<"dict0">>
+    [] k = "mx" -> MxOf(Atom(params), d - 1, params)
+    [] k = "slice" -> <<"slice", RandExpr(d - 1, params), Pick({"tail", "head"})>>
 
 RandExpr(d, params) ==
   IF d = 0 THEN Atom(params)
@@ -147,12 +189,299 @@ Class ==
               ELSE <<<<"m", RandExpr(Depth - 1, {"self"})>>, <<"n", RandExpr(Depth - 1, {"self"})>>>>>>)
     /\ Bind(c, "cls", n)
 
+(* ======================= second family: mutation and match =================================== *)
+ParamsX(n, star) == Params(n) \cup (IF star THEN {"ps"} ELSE {})
+Max(S) == CHOOSE m \in S : \A n \in S : n <= m
+BindMany(N) == scope' = {s \in scope : s[1] \notin N} \cup {<<n, "var", 0>> : n \in N}
+
+(* syntactic shape of the value a module-level variable holds (a heuristic that makes mutations   *)
+(* that CPython accepts frequent; ill-typed ones still occur and are dropped by the executor)      *)
+BindIdx(x) == {k \in DOMAIN stmts : (stmts[k][1] \in {"assign", "try", "match"} /\ stmts[k][2] = x)
+                                     \/ (stmts[k][1] \in {"if", "ifonly"} /\ stmts[k][3] = x)}
+ExprShape(e) ==
+  CASE e[1] \in {"list", "lcomp", "split"} -> "list"
+    [] e[1] = "bcall" -> IF e[2] \in {"list", "sorted"} THEN "list" ELSE "unk"
+    [] e[1] \in {"dict", "dict0"} -> "dict"
+    [] e[1] = "set" -> "set"
+    [] e[1] = "call" -> IF e[2] \in Names("cls") THEN "inst" ELSE "unk"
+    [] OTHER -> "unk"
+ShapeOfVar(x) ==
+  IF BindIdx(x) = {} THEN "unk"
+  ELSE LET s == stmts[Max(BindIdx(x))] IN IF s[1] = "assign" THEN ExprShape(s[3]) ELSE "unk"
+
+MutKindsAll == <<"setitem", "setitem", "setitem0", "append", "append", "add", "update", "extend", "pop",
+                 "clear", "setdefault", "insert", "setattr", "setattr", "augadd", "delitem", "pop1">>
+MutKindsFor(sh) ==
+  CASE sh = "list" -> <<"append", "append", "extend", "insert", "pop", "clear", "setitem0", "augadd",
+                        "remove", "delitem0">>
+    [] sh = "dict" -> <<"setitem", "setitem", "setdefault", "update", "pop1", "clear", "delitem">>
+    [] sh = "set" -> <<"add", "add", "update", "clear">>
+    [] sh = "inst" -> <<"setattr">>
+    [] OTHER -> MutKindsAll
+
+(* the object itself, seldom one of its attributes or its first element (sh: shape of what x holds) *)
+PlaceOn(x, sh) ==
+  One({IF q = 1 /\ sh = "unk" THEN <<"attr", <<"name", x>>, Pick({"a", "b"})>>
+       ELSE IF q = 2 /\ sh \in {"unk", "list"} THEN <<"sub", <<"name", x>>>> ELSE <<"name", x>>
+       : q \in {Pick(1 .. 10)}})
+ContainerExpr(d, params) ==
+  One({ExprOfKind(k, d, params) : k \in {Pick({"list", "dict", "set", "tuple"})}})
+KeyLit(u) == <<"lit", Pick({"int", "str"})>>
+(* a value: half of the time an atom (so that the statement around it usually survives execution) *)
+ValExpr(d, params) == IF Pick(1 .. 2) = 1 THEN Atom(params) ELSE RandExpr(d, params)
+
+(* one mutation statement of kind k on place pl; expressions of depth d over params *)
+MutOfKind(k, pl, d, params) ==
+  CASE k = "setitem" -> <<"setitem", pl, KeyLit(d), ValExpr(d, params)>>
+    [] k = "setitem0" -> <<"setitem", pl, <<"lit", "zero">>, ValExpr(d, params)>>
+    [] k = "delitem" -> <<"delitem", pl, KeyLit(d)>>
+    [] k = "delitem0" -> <<"delitem", pl, <<"lit", "zero">>>>
+    [] k = "setattr" -> <<"setattr", pl, Pick({"a", "b"}), ValExpr(d, params)>>
+    [] k = "augadd" -> <<"augadd", pl, ContainerExpr(d, params)>>
+    [] k \in {"pop", "clear"} -> <<"mcall", pl, k, <<>>>>
+    [] k = "pop1" -> <<"mcall", pl, "pop", <<KeyLit(d)>>>>
+    [] k = "setdefault" -> <<"mcall", pl, "setdefault", <<KeyLit(d), ValExpr(d, params)>>>>
+    [] k = "insert" -> <<"mcall", pl, "insert", <<<<"lit", "zero">>, ValExpr(d, params)>>>>
+    [] k \in {"update", "extend"} -> <<"mcall", pl, k, <<ContainerExpr(d, params)>>>>
+    [] OTHER -> <<"mcall", pl, k, <<ValExpr(d, params)>>>>          \* append add remove
+
+FreshOf(dom) ==
+  CASE dom = "list" -> <<"list", IF Pick(1 .. 2) = 1 THEN <<>> ELSE <<Lit(dom)>>>>
+    [] dom = "list1" -> <<"list", <<Lit(dom)>>>>
+    [] dom = "nest" -> <<"list", <<PickSeq(<< <<"list", <<>>>>, <<"dict0">>, <<"list", <<Lit(dom)>>>> >>)>>>>
+    [] dom = "dict" -> IF Pick(1 .. 2) = 1 THEN <<"dict0">> ELSE <<"dict", KeyLit(dom), Lit(dom)>>
+    [] dom = "dict1" -> <<"dict", <<"lit", Pick({"int", "str"})>>, Lit(dom)>>
+    [] dom = "set" -> <<"set", <<Lit(dom)>>>>
+    [] dom = "inst" -> IF Names("cls") # {}
+                       THEN One({<<"call", c, RandArgs(Arity(c), 0, {})>> : c \in {Pick(Names("cls"))}})
+                       ELSE <<"list", <<>>>>
+    [] OTHER -> Lit(dom)
+
+(* module level: mutate the object a variable holds (directly, through an attribute or an element) *)
+Shaped == {x \in Names("var") : ShapeOfVar(x) # "unk"}
+MutOn(x) ==
+  \E q \in {Pick(1 .. 6)} :
+   \E k \in {IF q = 1 THEN PickSeq(MutKindsAll) ELSE PickSeq(MutKindsFor(ShapeOfVar(x)))} :
+     Emit(MutOfKind(k, PlaceOn(x, ShapeOfVar(x)), Depth - 1, {})) /\ UNCHANGED scope
+Mut ==
+  \E q \in {Pick(1 .. 6)} :
+    IF Shaped # {} /\ q # 1 THEN \E x \in {Pick(Shaped)} : MutOn(x)
+    ELSE IF Names("var") # {} /\ q = 1 THEN \E x \in {Pick(Names("var"))} : MutOn(x)
+    ELSE \E x \in {Pick(VarNames)} :
+           Emit(<<"assign", x, FreshOf(Pick({"list", "list1", "nest", "dict", "set", "inst"}))>>)
+           /\ Bind(x, "var", 0)
+
+(* a function that mutates its first parameter (and possibly another parameter or a global)        *)
+RetExpr(ps) ==
+  One({IF q <= 2 THEN <<"name", Pick(ps)>> ELSE IF q = 3 THEN Atom(ps) ELSE RandExpr(1, ps) : q \in {Pick(1 .. 4)}})
+MBody(ps) ==
+  One({IF q <= 3 THEN <<m1>>
+       ELSE <<m1, MutOfKind(PickSeq(MutKindsAll), PlaceOn(Pick(ps \cup Names("var")), "unk"), 1, ps)>>
+       : m1 \in {MutOfKind(PickSeq(MutKindsAll), PlaceOn("p1", "unk"), 1, ps)}, q \in {Pick(1 .. 4)}})
+(* the functions of the second family draw from more names, so that more of them are defined once *)
+FnNamesX == FnNames \cup {"f4", "f5", "f6"}
+MDef ==
+  \E f \in {Pick(FnNamesX)}, n \in {Pick(1 .. 2)}, st \in {Pick(1 .. 4)} :
+    /\ Emit(<<"mdef", f, n, st = 1, MBody(ParamsX(n, st = 1)), ValExpr(1, ParamsX(n, st = 1)),
+              RetExpr(ParamsX(n, st = 1)), RetExpr(ParamsX(n, st = 1))>>)
+    /\ Bind(f, "mfn", n)
+
+(* what the first mutation of the last mdef of f needs its first argument to be *)
+MutDom0(m) ==
+  CASE m[1] = "setitem" -> IF m[3][2] = "zero" THEN "list1" ELSE "dict"
+    [] m[1] = "delitem" -> IF m[3][2] = "zero" THEN "list1" ELSE "dict1"
+    [] m[1] = "setattr" -> "inst"
+    [] m[1] = "augadd" -> "list"
+    [] m[1] = "mcall" ->
+         CASE m[3] \in {"append", "extend", "insert"} -> "list"
+           [] m[3] \in {"remove", "clear"} -> "list1"
+           [] m[3] = "pop" -> IF m[4] = <<>> THEN "list1" ELSE "dict1"
+           [] m[3] = "add" -> "set"
+           [] OTHER -> "dict"
+    [] OTHER -> "list"
+MutDom(m) == IF m[2][1] = "attr" THEN "inst" ELSE IF m[2][1] = "sub" THEN "nest" ELSE MutDom0(m)
+LastDef(f) == stmts[Max({k \in DOMAIN stmts : stmts[k][1] \in {"mdef", "matchdef"} /\ stmts[k][2] = f})]
+DefIdx(f) == {k \in DOMAIN stmts : stmts[k][1] \in {"def", "mdef", "matchdef", "assign"} /\ stmts[k][2] = f}
+IsStar(f) == DefIdx(f) # {} /\ LET s == stmts[Max(DefIdx(f))] IN s[1] \in {"mdef", "matchdef"} /\ s[4]
+FreshFor(m) ==
+  IF MutDom(m) = "dict1" THEN <<"dict", IF m[1] = "delitem" THEN m[3] ELSE m[4][1], Lit(m)>>
+  ELSE FreshOf(MutDom(m))
+NeedsClass(f) == MutDom(LastDef(f)[5][1]) = "inst" /\ Names("cls") = {} /\ FreshCls # {}
+
+(* the same function called twice on two FRESH objects given by the same term *)
+TwinCall ==
+  \E f \in {Pick({g \in Names("mfn") : ~NeedsClass(g)})}, v \in {Pick(1 .. 3)}, x \in {Pick(VarNames)},
+     o \in {Atom({})} :
+  \E a \in {FreshFor(LastDef(f)[5][1])}, y \in {Pick(VarNames \ {x})} :
+  \E r1 \in {Pick(VarNames \ {x, y})}, r2 \in {Pick(VarNames \ {x, y})} :
+    LET args(z) == IF Arity(f) = 1 THEN <<z>> ELSE <<z, o>>
+        ax == <<"assign", x, a>>
+        ay == <<"assign", y, a>>
+        cx == <<"assign", r1, <<"call", f, args(<<"name", x>>)>>>>
+        cy == <<"assign", r2, <<"call", f, args(<<"name", y>>)>>>>
+        ix == <<"assign", x, <<"call", f, args(a)>>>>
+        iy == <<"assign", y, <<"call", f, args(a)>>>>
+    IN /\ stmts' = stmts \o (IF v = 1 THEN <<ax, cx, ay, cy>>
+                             ELSE IF v = 2 THEN <<ax, ay, cx, cy>> ELSE <<ix, iy>>)
+       /\ BindMany(IF v = 3 THEN {x, y} ELSE {x, y, r1, r2})
+
+(* a function called twice with arguments of different shape and length *)
+ProbeArg(u) ==
+  PickSeq(<< <<"list", <<>>>>, <<"list", <<Lit(u)>>>>, <<"list", <<Lit(u), Lit(u)>>>>, <<"tuple", <<>>>>,
+             <<"tuple", <<Lit(u)>>>>, <<"tuple", <<Lit(u), Lit(u)>>>>, <<"split", "empty">>,
+             <<"split", "two">>, <<"dict0">>, <<"dict", KeyLit(u), Lit(u)>>, Lit(u), Lit(u), Atom({}),
+             Atom({}), <<"bcall", "list", <<"tuple", <<>>>>>>, <<"bcall", "tuple", <<"split", "empty">>>> >>)
+ProbeArgs(f) ==
+  (IF Arity(f) = 0 THEN <<>> ELSE IF Arity(f) = 1 THEN <<ProbeArg(f)>> ELSE <<ProbeArg(f), ProbeArg(f)>>)
+  \o (IF IsStar(f)
+      THEN One({IF q = 1 THEN <<>> ELSE IF q = 2 THEN <<Lit(f)>> ELSE <<Lit(f), ProbeArg(f)>> : q \in {Pick(1 .. 3)}})
+      ELSE <<>>)
+NewFns == {f \in Fns : DefIdx(f) # {} /\ stmts[Max(DefIdx(f))][1] \in {"mdef", "matchdef"}}
+Probe ==
+  \E f \in {IF NewFns # {} /\ Pick(1 .. 5) # 1 THEN Pick(NewFns) ELSE Pick(Fns)}, r1 \in {Pick(VarNames)}, r2 \in {Pick(VarNames)} :
+    /\ stmts' = stmts \o << <<"assign", r1, <<"call", f, ProbeArgs(f)>>>>,
+                            <<"assign", r2, <<"call", f, ProbeArgs(f)>>>> >>
+    /\ BindMany({r1, r2})
+
+(* a call for its effect only *)
+CallSt ==
+  \E f \in {Pick(Fns)} :
+    Emit(<<"expr", <<"call", f, IF Arity(f) = 0 THEN <<>> ELSE IF Arity(f) = 1 THEN <<Atom({})>>
+                                ELSE <<Atom({}), Atom({})>>>>>>) /\ UNCHANGED scope
+
+(* ---- patterns ---- *)
+PatLits == {"int", "str", "float", "bool", "none", "zero", "empty"}
+PatClasses == {"int", "str", "float", "bool", "list", "tuple", "dict", "set"}
+PatKindsR == <<"pval", "pval", "pseq", "pseq", "pseq", "pstar", "pstar", "pmap", "pmap", "pcls", "pcls",
+               "por", "pas">>
+PatKindsA == PatKindsR \o <<"pcap", "pcap", "pwild">>
+(* kinds of the top-level pattern for a subject of (syntactically) known shape *)
+PatKindsB(sh) ==
+  CASE sh = "list" -> <<"pseq", "pseq", "pseq", "pseq", "pstar", "pstar", "pstar", "pclsL", "pval", "pcap",
+                        "pmap", "por", "pas">>
+    [] sh = "dict" -> <<"pmap", "pmap", "pmap", "pmap", "pclsD", "pseq", "pval", "pcap", "por", "pas">>
+    [] OTHER -> PatKindsA
+AltPat(u) ==
+  PickSeq(<< <<"pval", Pick(PatLits)>>, <<"pval", Pick(PatLits)>>, <<"pcls", Pick(PatClasses), <<>>, <<>>>>,
+             <<"pseq", "l", <<>>>>, <<"pmap", <<>>, "">> >>)
+RECURSIVE RandPat(_, _, _)
+(* a sub-pattern: two times out of three a leaf (value, capture, wildcard) *)
+SubPat(d, tag) == IF Pick(1 .. 3) = 1 THEN RandPat(d, tag, "A") ELSE RandPat(0, tag, "A")
+SubPats(n, d, tag) ==
+  IF n = 0 THEN <<>> ELSE IF n = 1 THEN <<SubPat(d, tag \o "1")>>
+  ELSE <<SubPat(d, tag \o "1"), SubPat(d, tag \o "2")>>
+MapItems(n, d, tag) ==
+  IF n = 0 THEN <<>> ELSE IF n = 1 THEN << <<KeyLit(d), SubPat(d, tag \o "v")>> >>
+  ELSE << <<<<"lit", "str">>, SubPat(d, tag \o "v")>>, <<<<"lit", "int">>, SubPat(d, tag \o "w")>> >>
+ClsPat(d, tag) ==
+  IF Names("cls") # {} /\ Pick(1 .. 2) = 1
+  THEN One({<<"pcls", Pick(Names("cls")), <<>>,
+              IF q = 1 THEN <<>> ELSE << <<Pick({"a", "b"}), SubPat(d - 1, tag \o "a")>> >>>>
+            : q \in {Pick(1 .. 2)}})
+  ELSE One({<<"pcls", Pick(PatClasses), IF q = 1 THEN <<>> ELSE <<SubPat(d - 1, tag \o "p")>>, <<>>>>
+            : q \in {Pick(1 .. 3)}})
+(* refut = "R": the pattern must be refutable; "A": any kind; "list" / "dict": any kind, biased to *)
+(* the kinds that can match a subject of that shape                                            *)
+RandPat(d, tag, refut) ==
+  IF d = 0
+  THEN (IF refut = "R" THEN <<"pval", Pick(PatLits)>>
+        ELSE PickSeq(<< <<"pval", Pick(PatLits)>>, <<"pcap", tag>>, <<"pcap", tag>>, <<"pwild">> >>))
+  ELSE One({
+    CASE k = "pval" -> <<"pval", Pick(PatLits)>>
+      [] k = "pwild" -> <<"pwild">>
+      [] k = "pcap" -> <<"pcap", tag>>
+      [] k = "pseq" -> One({<<"pseq", Pick({"l", "t"}), SubPats(n, d - 1, tag)>> : n \in {Pick(0 .. 2)}})
+      [] k = "pstar" -> One({<<"pstar", SubPats(n, d - 1, tag), Pick({"_", tag \o "r"}),
+                               SubPats(m, d - 1, tag \o "z")>> : n \in {Pick(0 .. 1)}, m \in {Pick(0 .. 1)}})
+      [] k = "pmap" -> One({<<"pmap", MapItems(n, d - 1, tag), Pick({"", tag \o "k"})>> : n \in {Pick(0 .. 2)}})
+      [] k = "pcls" -> ClsPat(d, tag)
+      [] k = "pclsL" -> <<"pcls", Pick({"list", "tuple"}), IF Pick(1 .. 2) = 1 THEN <<>> ELSE <<<<"pcap", tag>>>>, <<>>>>
+      [] k = "pclsD" -> <<"pcls", "dict", IF Pick(1 .. 2) = 1 THEN <<>> ELSE <<<<"pcap", tag>>>>, <<>>>>
+      [] k = "por" -> <<"por", AltPat(d), AltPat(tag)>>
+      [] k = "pas" -> <<"pas", RandPat(d - 1, tag \o "i", "R"), tag>>
+    : k \in {PickSeq(IF refut = "R" THEN PatKindsR ELSE IF refut = "A" THEN PatKindsA ELSE PatKindsB(refut))}})
+
+RECURSIVE Caps(_)
+CapsSeq(q) == UNION {Caps(q[k]) : k \in DOMAIN q}
+Caps(p) ==
+  CASE p[1] = "pcap" -> {p[2]}
+    [] p[1] = "pseq" -> CapsSeq(p[3])
+    [] p[1] = "pstar" -> CapsSeq(p[2]) \cup (IF p[3] = "_" THEN {} ELSE {p[3]}) \cup CapsSeq(p[4])
+    [] p[1] = "pmap" -> UNION {Caps(p[2][k][2]) : k \in DOMAIN p[2]} \cup (IF p[3] = "" THEN {} ELSE {p[3]})
+    [] p[1] = "pcls" -> CapsSeq(p[3]) \cup UNION {Caps(p[4][k][2]) : k \in DOMAIN p[4]}
+    [] p[1] = "pas" -> Caps(p[2]) \cup {p[3]}
+    [] OTHER -> {}
+RECURSIVE PatCls(_)
+PatClsSeq(q) == UNION {PatCls(q[k]) : k \in DOMAIN q}
+PatCls(p) ==                                   \* user classes a pattern names
+  CASE p[1] = "pseq" -> PatClsSeq(p[3])
+    [] p[1] = "pstar" -> PatClsSeq(p[2]) \cup PatClsSeq(p[4])
+    [] p[1] = "pmap" -> UNION {PatCls(p[2][k][2]) : k \in DOMAIN p[2]}
+    [] p[1] = "pcls" -> (IF p[2] \in PatClasses THEN {} ELSE {p[2]}) \cup PatClsSeq(p[3])
+                        \cup UNION {PatCls(p[4][k][2]) : k \in DOMAIN p[4]}
+    [] p[1] = "por" -> PatCls(p[2]) \cup PatCls(p[3])
+    [] p[1] = "pas" -> PatCls(p[2])
+    [] OTHER -> {}
+Irref(p) == p[1] \in {"pwild", "pcap"}
+
+(* one case <<pattern, guard, expression>>; a case that is not the last one is refutable or guarded *)
+GuardFor(p, final, params) ==
+  IF (~final /\ Irref(p)) \/ Pick(1 .. 5) = 1 THEN ValExpr(1, params \cup Caps(p)) ELSE <<"noguard">>
+(* sh: "list" / "dict" (shape of the subject) or "A" *)
+CaseOf(final, fw, params, d, sh) ==
+  IF final /\ fw THEN << <<"pwild">>, <<"noguard">>, ValExpr(d, params)>>
+  ELSE One({One({<<p, g, ValExpr(d, params \cup Caps(p))>> : g \in {GuardFor(p, final, params)}})
+            : p \in {RandPat(2, "c", sh)}})
+Cases(nc, fw, params, d, sh) ==
+  IF nc = 1 THEN <<CaseOf(TRUE, fw, params, d, sh)>>
+  ELSE IF nc = 2 THEN <<CaseOf(FALSE, fw, params, d, sh), CaseOf(TRUE, fw, params, d, sh)>>
+  ELSE IF nc = 3 THEN <<CaseOf(FALSE, fw, params, d, sh), CaseOf(FALSE, fw, params, d, sh),
+                        CaseOf(TRUE, fw, params, d, sh)>>
+  ELSE <<CaseOf(FALSE, fw, params, d, sh), CaseOf(FALSE, fw, params, d, sh), CaseOf(FALSE, fw, params, d, sh),
+         CaseOf(TRUE, fw, params, d, sh)>>
+
+(* subjects: of statically unknown length (and often empty at run time), a name, any expression *)
+UnkLen(u) ==
+  PickSeq(<< <<"split", "empty">>, <<"split", "empty">>, <<"split", "one">>, <<"split", "two">>,
+             <<"bcall", "list", <<"tuple", <<>>>>>>, <<"bcall", "tuple", <<"list", <<>>>>>>,
+             <<"bcall", "tuple", <<"split", "empty">>>>, <<"bcall", "sorted", <<"list", <<Lit(u)>>>>>>,
+             <<"lcomp", <<"name", "v">>, <<"list", <<>>>>>>,
+             <<"lcomp", <<"name", "v">>, <<"list", <<Lit(u), Lit(u)>>>>>>,
+             <<"bcall", "list", <<"list", <<Lit(u), Lit(u)>>>>>>, <<"slice", <<"split", "two">>, "tail">> >>)
+Subject(params) ==
+  One({IF q <= 3 THEN UnkLen(params)
+       ELSE IF q <= 5 /\ (Names("var") \cup params) # {} THEN <<"name", Pick(Names("var") \cup params)>>
+       ELSE IF q = 6 THEN ContainerExpr(1, params)
+       ELSE RandExpr(Depth, params) : q \in {Pick(1 .. 7)}})
+SubjShape(e, params) ==
+  IF e[1] = "name" THEN (IF e[2] = "ps" THEN "list" ELSE IF e[2] \in params THEN Pick({"list", "list", "dict", "A"})
+                         ELSE IF ShapeOfVar(e[2]) \in {"list", "dict"} THEN ShapeOfVar(e[2]) ELSE "A")
+  ELSE IF e[1] = "tuple" \/ e[1] = "slice" \/ (e[1] = "bcall" /\ e[2] = "tuple") THEN "list"
+  ELSE IF ExprShape(e) \in {"list", "dict"} THEN ExprShape(e) ELSE "A"
+
+MatchSt ==
+  \E x \in {Pick(VarNames)}, nc \in {Pick(1 .. 3)}, subj \in {Subject({})} :
+   \E sh \in {SubjShape(subj, {})} :
+    /\ Emit(<<"match", x, subj,
+              IF x \in Names("var") THEN Cases(nc, FALSE, {}, Depth, sh) ELSE Cases(nc + 1, TRUE, {}, Depth, sh)>>)
+    /\ Bind(x, "var", 0)
+
+MatchDef ==
+  \E f \in {Pick(FnNamesX)}, n \in {Pick(0 .. 2)}, st \in {Pick(1 .. 3)}, nc \in {Pick(1 .. 3)} :
+   \E ps \in {ParamsX(n, st = 1 \/ n = 0)} :
+   \E subj \in {IF Pick(1 .. 4) # 1 THEN <<"name", Pick(ps)>> ELSE Subject(ps)} :
+   \E sh \in {SubjShape(subj, ps)} :
+    /\ Emit(<<"matchdef", f, n, st = 1 \/ n = 0, subj, Cases(nc, FALSE, ps, Depth, sh), ValExpr(Depth, ps)>>)
+    /\ Bind(f, "fn", n)
+
 Finish == done' = TRUE /\ UNCHANGED <<stmts, scope>>
 
 Init == stmts = <<>> /\ scope = {} /\ done = FALSE
 
 StmtKinds == <<"assign", "assign", "assign", "if", "ifonly", "try", "def", "def", "lambda",
                "class", "class">>
+  \o (IF Mutation THEN <<"mut", "mut", "mut", "mdef", "mdef", "twin", "twin", "probe", "callst">> ELSE <<>>)
+  \o (IF Match THEN <<"match", "match", "match", "matchdef", "matchdef", "probe">> ELSE <<>>)
 
 Next ==
   /\ ~done
@@ -166,6 +495,14 @@ Next ==
                [] k = "def" -> Def
                [] k = "lambda" -> Lambda
                [] k = "class" -> IF FreshCls # {} THEN Class ELSE Assign
+               [] k = "mut" -> Mut
+               [] k = "mdef" -> MDef
+               [] k = "twin" -> IF Names("mfn") = {} THEN MDef
+                               ELSE IF \A f \in Names("mfn") : NeedsClass(f) THEN Class ELSE TwinCall
+               [] k = "probe" -> IF Fns # {} THEN Probe ELSE IF Match THEN MatchDef ELSE MDef
+               [] k = "callst" -> IF Fns # {} THEN CallSt ELSE MDef
+               [] k = "match" -> MatchSt
+               [] k = "matchdef" -> MatchDef
 
 Spec == Init /\ [][Next]_vars
 
@@ -185,13 +522,34 @@ FreeNames(e) ==
     [] e[1] = "call" -> {e[2]} \cup UNION {FreeNames(e[3][k]) : k \in DOMAIN e[3]}
     [] e[1] = "lambda" -> FreeNames(e[2]) \ {"p1"}
     [] e[1] = "lcomp" -> (FreeNames(e[2]) \ {"v"}) \cup FreeNames(e[3])
+    [] e[1] \in {"split", "dict0", "noguard"} -> {}
+    [] e[1] = "mx" -> FreeNames(e[2]) \cup UNION {FreeNames(e[4][k]) : k \in DOMAIN e[4]}
+    [] e[1] = "slice" -> FreeNames(e[2])
 
 BoundBefore(k) ==
-  {stmts[j][2] : j \in {j \in 1 .. k - 1 : stmts[j][1] \in {"assign", "def", "class", "try"}}}
+  {stmts[j][2] : j \in {j \in 1 .. k - 1 : stmts[j][1] \in {"assign", "def", "class", "try", "mdef",
+                                                           "matchdef", "match"}}}
   \cup {stmts[j][3] : j \in {j \in 1 .. k - 1 : stmts[j][1] = "if"}}
 
+(* free names of the cases of a match: captures are bound inside the case, class names are read *)
+CasesFree(cs) ==
+  UNION {((FreeNames(cs[k][2]) \cup FreeNames(cs[k][3])) \ Caps(cs[k][1])) \cup PatCls(cs[k][1])
+         : k \in DOMAIN cs}
+MutFree(s) ==          \* the simple statements of the second family
+  CASE s[1] = "setitem" -> FreeNames(s[2]) \cup FreeNames(s[4])
+    [] s[1] = "delitem" -> FreeNames(s[2])
+    [] s[1] = "setattr" -> FreeNames(s[2]) \cup FreeNames(s[4])
+    [] s[1] = "mcall" -> FreeNames(s[2]) \cup UNION {FreeNames(s[4][k]) : k \in DOMAIN s[4]}
+    [] s[1] = "augadd" -> FreeNames(s[2]) \cup FreeNames(s[3])
+    [] s[1] = "expr" -> FreeNames(s[2])
 StmtFree(s) ==
-  CASE s[1] = "assign" -> FreeNames(s[3])
+  CASE s[1] \in {"setitem", "delitem", "setattr", "mcall", "augadd", "expr"} -> MutFree(s)
+    [] s[1] = "mdef" ->
+         (UNION {MutFree(s[5][k]) : k \in DOMAIN s[5]} \cup FreeNames(s[6]) \cup FreeNames(s[7])
+          \cup FreeNames(s[8])) \ {"p1", "p2", "ps"}
+    [] s[1] = "match" -> FreeNames(s[3]) \cup CasesFree(s[4])
+    [] s[1] = "matchdef" -> (FreeNames(s[5]) \cup CasesFree(s[6]) \cup FreeNames(s[7])) \ {"p1", "p2", "ps"}
+    [] s[1] = "assign" -> FreeNames(s[3])
     [] s[1] = "if" -> FreeNames(s[2]) \cup FreeNames(s[4]) \cup FreeNames(s[5])
     [] s[1] = "ifonly" -> FreeNames(s[2]) \cup FreeNames(s[4]) \cup {s[3]}
     [] s[1] = "try" -> FreeNames(s[3]) \cup FreeNames(s[4])
